@@ -208,6 +208,7 @@ func cmdCheck(args []string) int {
 		name   string
 		detail map[string]interface{}
 		model  bool
+		obs    []*Obligation // failed instances (candidates for replay)
 	}
 	var viols []violation
 	for _, fc := range fcs {
@@ -257,7 +258,7 @@ func cmdCheck(args []string) int {
 			d["model"] = trimOut(ob.Result.Model)
 			d["model_from_relaxed_query"] = ob.Result.Relaxed
 		}
-		viols = append(viols, violation{name: name, detail: d, model: ob.Result.Model != ""})
+		viols = append(viols, violation{name: name, detail: d, model: ob.Result.Model != "", obs: n.Failed})
 	}
 	// known findings
 	kf := loadKnown()
@@ -278,7 +279,13 @@ func cmdCheck(args []string) int {
 		rc = 1
 		// replay on the real code where a model exists
 		suffix := ""
-		replayed := tryReplay(u, v.detail, scratch)
+		replayed := false
+		for i, fo := range v.obs {
+			if i >= 3 || replayed {
+				break
+			}
+			replayed = tryReplayOb(u, fo, v.detail, filepath.Join(scratch, fmt.Sprintf("replay%d", i)))
+		}
 		if !replayed {
 			suffix = " no-failing-input-found"
 		}
@@ -396,8 +403,5 @@ func uniq(s []string) []string {
 	return out
 }
 
-func tryReplay(u *Universe, detail map[string]interface{}, scratch string) bool {
-	return false
-}
 
 var _ = ssa.NaiveForm
